@@ -1,6 +1,7 @@
 //! Correspondence harness: drives the real crustabri (built from /repo's working tree) on generated
 //! inputs and prints everything observable to a `.cases` file for comparison with the Coq model.
 mod common;
+mod dynamic;
 mod gen;
 mod statics;
 mod store;
@@ -58,6 +59,7 @@ fn main() {
     match mode.as_str() {
         "store" => store::run(&mut rng, count, thorough, &mut out),
         "static" => statics::run(&mut rng, count, thorough, &statics::Cfg::from_extra(&extra, 1), &mut out),
+        "dynamic" => dynamic::run(&mut rng, count, thorough, &extra, &mut out),
         "static-multi" => statics::run(&mut rng, count, thorough, &statics::Cfg::from_extra(&extra, 3), &mut out),
         _ => {
             eprintln!("unknown mode {}", mode);
